@@ -365,20 +365,19 @@ func CoordinatesCursor(cur *Cursor, indent int) (x, y int) {
 	bpos := 0
 	usedY := 0
 
-	for pos, newline := range newlines {
+	for _, newline := range newlines {
 		switch {
 		case newline[0] < cur.pos:
 			// Until we didn't reach the cursor line,
 			// simply care about the line count.
 			line := (*cur.line)[bpos:newline[0]]
 			bpos = newline[0] + 1
-			_, y := strutil.LineSpan(line, pos, indent)
-			usedY += y
+			usedY += strutil.LineRows(line, indent)
 
 		default:
 			// On the cursor line, use both line and column count.
 			line := (*cur.line)[bpos:cur.pos]
-			usedX, y := strutil.LineSpan(line, pos, indent)
+			usedX, y := strutil.LineSpan(line, 0, indent)
 			usedY += y
 
 			return usedX, usedY
